@@ -13,7 +13,7 @@
     The loops [insert] and [index] are [for { … }] without a bound; the model runs them with
     fuel [capacity+1] and returns [None] when it runs out (= the real loop would still be
     running).  [Proofs/C36_rhh*.v] shows the fuel always suffices on states reachable with a
-    load factor <= 100 and non-empty keys.
+    load factor <= 100.
 
     The hash function (xxhash, external) is a Section variable; the correspondence driver
     passes the real [rhh.HashKey] values of the keys of a case as a table.
@@ -79,16 +79,17 @@ Definition h_new (c lf : N) : hmap :=
 
 (** [insert(hash, key, val)]: the robin-hood loop.  State of the loop: the element in hand
     ([h], [k], [v]), its probe distance [d], the position [pos].  Result: the new table and
-    the [overwritten] flag (= [match] of the last visited slot — note that the code computes
-    [match] from the KEYS only, also for an empty slot). *)
+    the [overwritten] flag (= [match] of the last visited slot; [match] requires the slot to be
+    occupied: [occupied := hashes[pos] != 0; match := occupied && bytes.Equal(key, searchKey)]). *)
 Fixpoint insert_loop (fuel : nat) (cap : N) (t : list slot) (pos d h : N) (k : bytes) (v : N)
   : option (list slot * bool) :=
   match fuel with
   | O => None
   | S f =>
       let e := tget t pos in
-      let mtch := bytes_eqb (s_key e) k in
-      if N.eqb (s_hash e) 0 || mtch then
+      let occupied := negb (N.eqb (s_hash e) 0) in
+      let mtch := occupied && bytes_eqb (s_key e) k in
+      if negb occupied || mtch then
         Some (tset t pos {| s_hash := h; s_key := k; s_val := v |}, mtch)
       else
         let ed := dist (s_hash e) pos cap in
